@@ -29,7 +29,7 @@ CLAIMED = {
                      "contract-based part (Verus/Z3) showing the CLI and Display hand out get_multiline(0, w)",
         "text": "BOUNDED stand-in, not a proof: the layout printer is format!/String code and the parser a peg expansion, neither within the reach of the installed Verus (no str/format! "
                 "reasoning) or Kani (format! exhausts memory), so the round-trip, idempotence and colour clauses are decided by exhaustive enumeration on the real code up to a stated bound: "
-                "every definition of a finite family (3780 definitions: with/without interface documentation x 3 documentation layouts x every sequence of <= 2 of 18 member templates, "
+                "every definition of a finite family (about 3900 definitions, the exact count is in the evidence: with/without interface documentation x 4 documentation layouts, one with CRLF line endings, x every sequence of <= 2 of 18 member templates, "
                 "every <= 3-deep decoration prefix of ?, [], [string] in front of anonymous structs and enums, triples over 6 templates) x every width 0..=100 and 1000: the top-level rendering "
                 "must be accepted by the parser, give the same interface name / documentation / member names in order / field names / types (compared by an independent structural dump), "
                 "re-format to the same bytes, and equal the colored rendering once escape sequences are removed; Display equals the width-80 rendering. The contract-based part (Verus, unbounded) "
